@@ -17,6 +17,7 @@
 -/
 import XotModel.Lemmas.FatomAll
 import XotModel.Lemmas.Fcreation
+import XotModel.Lemmas.FpxDedup
 
 namespace XotModel.Props
 open XotModel
@@ -513,5 +514,111 @@ example : (C06_sample.appendText 4 ['q']).2 = .err .invalidOperation ∧
     (C06_sample.setAttribute 4 9 []).2 = .panic ∧ (C06_sample.setAttribute 1 9 []).2 = .ok ∧
     (C06_sample.attributeSetValue 3 ['w']).2 = .ok ∧ (C06_sample.attributeSetValue 4 ['w']).2 = .err .invalidOperation ∧
     (C06_sample.appendText 1 ['q']).2 = .ok := by decide
+
+end XotModel.Props
+
+/-! # ================================================================================================
+    # PREFIXES (branch wt-misc): `create_missing_prefixes` / `deduplicate_namespaces` at forest level
+    # ================================================================================================
+
+  Model/FatomSpec2.lean: both functions walk the subtree read-only (the tree-level models of C10 / C15 on
+  the erased root tree) and then change the store only through `namespaces_mut(h).insert` / `.remove`,
+  i.e. through `Forest.Call`s run in the Rust's order (`Forest.runCalls`).  For EVERY forest with the
+  invariant, every vocabulary and every node argument (live or not):
+
+    C06_create_missing_prefixes_outcome   the three cases: `NotElement` / `NoElementAtTopLevel` with forest
+                                          and interning tables returned as they were, `Ok` otherwise
+    C06_create_missing_prefixes_atomic    a refused call changes nothing (both refusals precede the first call)
+    C06_no_panic_create_missing_prefixes  never panics (walk: `pushed.pop().unwrap()` unreachable; prefix loop
+                                          ends: C10's fuel lemma; every insertion meets an element)
+    C06_deduplicate_namespaces_total      never fails, never panics; only `remove` calls on elements
+-/
+
+namespace XotModel.Props
+open XotModel
+
+/-- The outcome of `create_missing_prefixes(node)`, case by case. -/
+theorem C06_create_missing_prefixes_outcome (f : Forest) (hi : f.Inv) (env : Env) (node : Nat) :
+    (f.isDocument node = false → f.isElement node = false →
+      f.createMissingPrefixes env node = (f, env, .err .notElement)) ∧
+    (f.isDocument node = true → (∀ t, f.get? node = some t → ∀ k ∈ t.kids, k.value.isElement = false) →
+      f.createMissingPrefixes env node = (f, env, .err .noElementAtTopLevel)) ∧
+    ((f.isElement node = true ∨ (f.isDocument node = true ∧
+        ∃ t k, f.get? node = some t ∧ k ∈ t.kids ∧ k.value.isElement = true)) →
+      (f.createMissingPrefixes env node).2.2 = .ok) :=
+  Forest.fpx_createMissingPrefixes hi env node
+
+/-- The three cases are exhaustive: the outcome is `Ok` or one of the two refusals with NOTHING changed. -/
+theorem C06_create_missing_prefixes_cases (f : Forest) (hi : f.Inv) (env : Env) (node : Nat) :
+    (f.createMissingPrefixes env node).2.2 = .ok ∨
+    f.createMissingPrefixes env node = (f, env, .err .notElement) ∨
+    f.createMissingPrefixes env node = (f, env, .err .noElementAtTopLevel) := by
+  obtain ⟨h1, h2, h3⟩ := C06_create_missing_prefixes_outcome f hi env node
+  cases hd : f.isDocument node with
+  | false =>
+    cases he : f.isElement node with
+    | false => exact Or.inr (Or.inl (h1 hd he))
+    | true => exact Or.inl (h3 (Or.inl he))
+  | true =>
+    by_cases hk : ∃ t k, f.get? node = some t ∧ k ∈ t.kids ∧ k.value.isElement = true
+    · exact Or.inl (h3 (Or.inr ⟨hd, hk⟩))
+    · refine Or.inr (Or.inr (h2 hd (fun t hg k hkm => ?_)))
+      cases hv : k.value.isElement with
+      | false => rfl
+      | true => exact absurd ⟨t, k, hg, hkm, hv⟩ hk
+
+/-- **A refused `create_missing_prefixes` changes nothing**: if the call answers `Err(e)`, the forest and
+    the interning tables are the ones it was called with (and `e` is `NotElement` or
+    `NoElementAtTopLevel`: both refusals precede the first `namespaces_mut` call). -/
+theorem C06_create_missing_prefixes_atomic (f : Forest) (hi : f.Inv) (env : Env) (node : Nat) (e : XotError)
+    (h : (f.createMissingPrefixes env node).2.2 = .err e) :
+    (f.createMissingPrefixes env node).1 = f ∧ (f.createMissingPrefixes env node).2.1 = env ∧
+    (e = .notElement ∨ e = .noElementAtTopLevel) := by
+  rcases C06_create_missing_prefixes_cases f hi env node with h1 | h1 | h1
+  · rw [h1] at h; cases h
+  · rw [h1] at h ⊢; injection h with h; exact ⟨rfl, rfl, Or.inl h.symm⟩
+  · rw [h1] at h ⊢; injection h with h; exact ⟨rfl, rfl, Or.inr h.symm⟩
+
+/-- `create_missing_prefixes` never panics, for every node argument. -/
+theorem C06_no_panic_create_missing_prefixes (f : Forest) (hi : f.Inv) (env : Env) (node : Nat) :
+    (f.createMissingPrefixes env node).2.2 ≠ .panic := by
+  rcases C06_create_missing_prefixes_cases f hi env node with h1 | h1 | h1 <;> rw [h1] <;> exact fun h => by cases h
+
+/-- The calls `create_missing_prefixes_for_element` issues on an element: they exist (no panic before
+    the first one) and are namespace insertions on elements of the forest. -/
+theorem C06_create_missing_prefixes_calls (f : Forest) (hi : f.Inv) (env : Env) (node : Nat)
+    (he : f.isElement node = true) :
+    ∃ env' cs, f.repairCalls env node = some (env', cs) ∧ ∀ c ∈ cs, c.isNsEdit f :=
+  Forest.fpx_repairCalls hi env he
+
+/-- **`deduplicate_namespaces` never fails and never panics**, for every node argument; its calls are
+    `namespaces_mut(h).remove(prefix)` on elements `h` of the forest (live, hence not removed). -/
+theorem C06_deduplicate_namespaces_total (f : Forest) (hi : f.Inv) (env : Env) (node : Nat) :
+    (f.deduplicateNamespaces env node).2 = .ok ∧
+    (∀ c ∈ f.dedupCalls env node, ∃ h pfx, c = .mapRemove .namespaces h pfx ∧ f.isElement h = true ∧
+      f.isLive h = true) := by
+  refine ⟨(Forest.fpx_deduplicateNamespaces hi env node).1, fun c hc => ?_⟩
+  obtain ⟨h1, h, pfx, rfl⟩ := Forest.fpx_dedupCalls hi env node c hc
+  exact ⟨h, pfx, rfl, h1, Forest.fpx_isLive_of_isElement h1⟩
+
+/-- Both calls leave every node's kind alone (element stays element, non-element stays non-element). -/
+theorem C06_prefix_calls_keep_elements (f : Forest) (hi : f.Inv) (env : Env) (node x : Nat) :
+    (f.deduplicateNamespaces env node).1.isElement x = f.isElement x :=
+  (Forest.fpx_deduplicateNamespaces hi env node).2.2 x
+
+/-- Non-vacuity on `pfxForest'` = `<a:e xmlns:p="urn:u"><a:e xmlns:p="urn:u"/></a:e>`: accepted on the
+    element, refused with nothing changed on its namespace node; dedup removes the inner duplicate. -/
+def c06PfxEnv : Env :=
+  { namespaces := [[], ['x'], ['u'], ['w']], prefixes := [[], ['x','m','l'], ['p']],
+    names := [(['s'], 1), (['e'], 3)] }
+def c06PfxForest : Forest := { roots := [.node 0 (.element 1) [.node 1 (.namespace 2 2) [],
+  .node 2 (.element 1) [.node 3 (.namespace 2 2) []]], .node 4 .document [.node 5 (.comment ['c']) []]], next := 6 }
+example : c06PfxForest.inv = true := by decide
+example : (c06PfxForest.createMissingPrefixes c06PfxEnv 0).2.2 = .ok ∧
+    (c06PfxForest.createMissingPrefixes c06PfxEnv 1).2.2 = .err .notElement ∧
+    (c06PfxForest.createMissingPrefixes c06PfxEnv 4).2.2 = .err .noElementAtTopLevel ∧
+    (c06PfxForest.createMissingPrefixes c06PfxEnv 4).1.allHandles = c06PfxForest.allHandles ∧
+    (c06PfxForest.dedupCalls c06PfxEnv 0).length = 1 ∧
+    (c06PfxForest.deduplicateNamespaces c06PfxEnv 0).2 = .ok := by decide +kernel
 
 end XotModel.Props
